@@ -528,6 +528,7 @@ func obligations(rel []*Fn) string {
 import BbRe.Generated.LockSkel
 import BbRe.Lemmas.LockSkel
 import BbRe.Lemmas.LockSkelDiag
+import BbRe.Lemmas.LockSkelEdges
 import BbRe.Properties.C14
 /-!
 # C14 — obligations about the lock skeletons generated from the current source
@@ -658,6 +659,31 @@ another lock of the same class is held, except through a LockPile. -/
 theorem class_graph_ok :
     (edgesProg edgeClass acqTbl sigma prog []).isSome = true ∧ ranksOk classRanks classEdges = true := by
   decide +kernel
+
+/-- No call renames an ownership token (serial 998) into a real lock (side condition of
+edges_sound). -/
+theorem own_ok : BbRe.Lemmas.LockSkelEdges.ownOk prog = true := by decide +kernel
+
+/-- **The extraction is sound, and every run respects the lock order** (for the code as it
+is now): in every returning run of every translated function, replayed from the locks its
+summary requires, every (class of a held lock, class of a lock being acquired) pair —
+an acquisition through a LockPile not counting that pile's own locks as held — is an
+extracted edge, hence strictly increases the class rank. -/
+theorem runs_respect_lock_order (f : Nat) (tr : List Ev) (he : Exec prog f tr)
+    (req post : List Nat) (hs : sigma.get f = some (req, post)) :
+    ∀ e ∈ BbRe.Lemmas.LockSkelEdges.pairsRun edgeClass req (fun _ => []) tr,
+      e ∈ classEdges ∧ rankOf classRanks e.1 < rankOf classRanks e.2 := by
+  have hsome := class_graph_ok.1
+  have hes : edgesProg edgeClass acqTbl sigma prog [] = some classEdges := by
+    unfold classEdges
+    cases h : edgesProg edgeClass acqTbl sigma prog [] with
+    | none => rw [h] at hsome; cases hsome
+    | some es => rfl
+  intro e hm
+  exact ⟨BbRe.Lemmas.LockSkelEdges.edges_sound edgeClass acqTbl sigma prog classEdges
+      skeletons_consistent acq_table_closed own_ok hes f tr he req post hs e hm,
+    BbRe.Lemmas.LockSkelEdges.pairs_ranked edgeClass acqTbl sigma prog classEdges classRanks
+      skeletons_consistent acq_table_closed own_ok hes class_graph_ok.2 f tr he req post hs e hm⟩
 
 /-- Link to C14.no_deadlock: in any state of any system of threads in which every
 (held lock, awaited lock) pair of a blocked thread is one of the extracted edges
